@@ -36,11 +36,19 @@ func storeLetters(withEvict, withCollMgmt bool) func(w *harness.World) []Letter 
 				ls = append(ls, Letter{"RemoveColl(y)", func(w *harness.World) { w.RemoveCollection("y") }})
 			}
 		}
-		if withCollMgmt {
+		if mc := w.M.Cur.Colls["y"]; withCollMgmt && (mc == nil || harness.OrderOf(mc.Cmp) == "bytes" || len(mc.Items) <= 1) {
+			// (a comparator that changes the order may only be installed while it cannot matter)
 			ls = append(ls, Letter{"SetColl(y)", func(w *harness.World) { w.SetCollection("y", "nil") }})
 		}
 		ls = append(ls, Letter{"Flush", func(w *harness.World) { w.Flush() }},
-			Letter{"Reopen", func(w *harness.World) { w.Reopen(true); ensureX(w) }})
+			Letter{"Reopen", func(w *harness.World) { w.Reopen(true) }})
+		// the store may end up without any collection: the root record of an
+		// empty store is the smallest one there is
+		if _, ok := w.Colls["x"]; !ok {
+			ls = append(ls, Letter{"SetColl(x)", func(w *harness.World) { w.SetCollection("x", "nil") }})
+		} else if withCollMgmt {
+			ls = append(ls, Letter{"RemoveColl(x)", func(w *harness.World) { w.RemoveCollection("x") }})
+		}
 		return ls
 	}
 }
@@ -63,6 +71,20 @@ func c02Profiles(tier string) []Profile {
 			conc = append(conc, sc2.Profile(1))
 		}
 	}
+	pre := &SeqProfile{Name: "durable-from-flushed", Keys: keys, Depth: d - 1, Mon: harness.Monitors{Durable: true}, MapOrders: true,
+		Init: func(w *harness.World) {
+			w.SetCollection("x", "nil")
+			w.SetItem("x", kA, 2, bs("v"))
+			w.SetItem("x", kB, 1, bs(""))
+			w.SetCollection("y", "nil")
+			w.SetItem("y", kA, 1, bs("yy"))
+			w.Flush()
+		},
+		Letters: storeLetters(true, true)}
+	conc = append(conc, pre.Profile(fmt.Sprintf("initial state: x{a,b}, y{a} flushed; every history of length <= %d over the same alphabet (deleting or overwriting persisted items, removing persisted collections, then Flush / Reopen)", d-1)))
+	conc = append(conc, Profile{Name: "after-failed-flush", Exec: OnlyOracles(c07Exec(1, 1, false), "durable", "observe", "model"),
+		Budget: map[int]int{1: 0, 2: 0, 3: 1}, ShardLevel: 3,
+		Rule: "durability of a Flush that follows a failed one: the C07 driver (5 initial stores x every single operation x one failing file call at every index, retried or not) followed by Set, Flush, a copy of the file re-opened, Reopen; contents oracles only"})
 	return append(conc, p.Profile(fmt.Sprintf("every history of length <= %d over Set/Delete on x (2 keys x 2 priorities), Set/Delete on y, SetCollection(y) (new and existing), RemoveCollection(y), Evict, Flush, Reopen (close, open the same file, continue); at the end of every history a byte copy of the file is opened in a fresh Store and must equal the model's newest durable state (top of the flush stack, empty if none)", d)))
 }
 
